@@ -98,7 +98,9 @@ func runC12(c *core.Ctx, r *core.Result) {
 			if w == nil {
 				w = MustWorld(era, FundStd)
 			}
-			c12One(c, r, w, era, sc, key)
+			c12One(c, r, w, era, sc, key, false)
+			// the same block applied twice by the running node: its first attempt fails at the very end (sync-height write)
+			c12One(c, r, w, era, sc, key+"/scenario-block-retried", true)
 		}
 		if w != nil {
 			w.Close()
@@ -140,7 +142,7 @@ func runC12(c *core.Ctx, r *core.Result) {
 					}
 				})
 			}
-			c12One(c, r, w, era, sc, key)
+			c12One(c, r, w, era, sc, key, false)
 		}
 		if w != nil {
 			w.Close()
@@ -253,7 +255,7 @@ func tickerName(i int) string {
 	return "p" + opr.V5Assets[i]
 }
 
-func c12One(c *core.Ctx, r *core.Result, w *World, era drive.Era, sc c12Scenario, key string) {
+func c12One(c *core.Ctx, r *core.Result, w *World, era drive.Era, sc c12Scenario, key string, retried bool) {
 	r.Eval()
 	r.NonTrivial(key)
 	run := w.Fork()
@@ -288,7 +290,14 @@ func c12One(c *core.Ctx, r *core.Result, w *World, era drive.Era, sc c12Scenario
 	d := run.Open(nil)
 	prev := map[uint32]map[string]uint64{}
 	immut := ""
-	d.DB.SetHooks(&sqlw.Hooks{After: func(op *sqlw.Op, err error) {
+	armed, fired := false, false
+	d.DB.SetHooks(&sqlw.Hooks{Before: func(op *sqlw.Op) error {
+		if retried && armed && !fired && op.Kind != "prepare" && strings.Contains(op.SQL, "pn_sync_version") {
+			fired = true
+			return fmt.Errorf("injected transient storage failure")
+		}
+		return nil
+	}, After: func(op *sqlw.Op, err error) {
 		if op.Kind != "commit" || err != nil {
 			return
 		}
@@ -318,10 +327,14 @@ func c12One(c *core.Ctx, r *core.Result, w *World, era drive.Era, sc c12Scenario
 	if err != nil {
 		panic(err)
 	}
+	armed = true
 	out := run.Sync()
 	if !out.Reached {
 		r.Count("inconclusive-"+outcomeClass(out), 1)
 		return
+	}
+	if retried && !fired {
+		panic("harness: C12 " + key + ": the injected failure never fired")
 	}
 	// what the API reports for a height is what the table holds for it (get-pegnet-rates is the user's view of the rates)
 	if lv, e := ReadLedger(d.DBFile()); e == nil {
